@@ -30,15 +30,18 @@ def run(ctx):
                 "archive content of the image = AssetContent(value), image = BinFormat!Canon(content), re-read fields = "
                 "value (absent fields don't-care), second serialization = first. impl->spec: seeded random values (random "
                 "presence, random bits incl. NaN payloads, junk in absent fields) and AssetBinary_Test.bin validated by "
-                "TLC. Non-trivial = at least one spec with a present optional field.")
+                "TLC; plus a rule-built large value (1 930 specs x 34 strings = 65 620 string cells) whose header totals TLC "
+                "derives from the rule and the field table; everything under the release and the checked build. Non-trivial = at least one spec with a present optional field.")
     binary = ctx.build("release", "mvh_cont")
     runs, max_specs = ctx.pick((300, 6), (3000, 8))
     cc.round_trip_check(ctx, "C18", binary, "MC_AssetBinary", "Gen_AssetBinary.cfg", "Trace_AssetBinary", "asset",
-                        ["PickBucket", "PickValue"], ["PickSeed", "StepSeed"], [runs, max_specs],
+                        ["PickBucket", "PickValue"], ["PickSeed", "StepSeed"], [runs, max_specs, "big"],
                         _case, _event,
                         lambda c: any(_present(s) for s in c["value"]["specs"]),
                         lambda e: any(_present(s) for s in e["value"]["specs"]))
-    ctx.assumptions += ["2^51 presence combinations are not exhausted: singles, pairs, all-but-one, halves exhaustively, the "
+    ctx.assumptions += ["the rule-built large value travels as (rule, image header, round-trip flags): TLC decides the header totals "
+                        "from the rule and the field table (BigRuleLaw ties the rule to AssetContent on small instances)",
+                        "2^51 presence combinations are not exhausted: singles, pairs, all-but-one, halves exhaustively, the "
                         "rest by seeded sampling",
                         "the value of an ABSENT typed field is don't-care (it has no representation in the file)",
                         "the container image is specified by spec/BinFormat.tla (C01/C02); byte-exact comparison with "
